@@ -467,6 +467,54 @@ fn producer_after_restart(rep: &mut Report) {
     }
 }
 
+/// Rounds that mint an NFT (with and without change) and, optionally, spend its payload one to
+/// three blocks later, at fee levels 0 and 6000 through two window wraps (the C13 histories): the
+/// group has to be rebroadcast by the producer when it leaves the window, with and without a
+/// rebroadcast fee. Every block the producer assembles must be adopted by its own node and the twin.
+fn nft_rounds(rep: &mut Report, tier: &Tier) {
+    use super::c13::{run_history_with, Act, Step};
+    let mut hs: Vec<(u64, Vec<Step>)> = vec![];
+    for g in if tier.thorough { vec![3u64, 4] } else { vec![3u64] } {
+        let n = (2 * g + 5) as usize;
+        for fee in [0u64, 6_000] {
+            let base: Vec<Step> = (0..n).map(|i| Step { act: Act::Pay(fee), gt: i % 2 == 1, fork_before: false }).collect();
+            for mint in [Act::NftCreate, Act::NftCreateNoChange] {
+                for p1 in 0..n.saturating_sub(g as usize + 2) {
+                    let mut s = base.clone();
+                    s[p1].act = mint.clone();
+                    hs.push((g, s.clone()));
+                    for d in 1..=3usize {
+                        if p1 + d < n {
+                            let mut s2 = s.clone();
+                            s2[p1 + d].act = Act::SpendNftPayload;
+                            hs.push((g, s2));
+                        }
+                    }
+                }
+            }
+        }
+    }
+    let results = par_map(&hs, workers(), |_, (g, steps)| {
+        let mut r = rep.child();
+        r.evaluations += 1;
+        let mut inner = r.child();
+        run_history_with(*g, steps, 8, false, &mut inner);
+        let cut: u64 = inner.outcomes.iter().filter(|(k, _)| k.starts_with("history-cut:block-not-accepted")).map(|(_, v)| *v).sum();
+        let ctx = json!({"g": g, "steps": steps.iter().map(|s| format!("{:?}{}", s.act, if s.gt { "+gt" } else { "" })).collect::<Vec<_>>()});
+        if cut > 0 {
+            let fees = steps.iter().any(|s| matches!(&s.act, Act::Pay(f) if *f > 0));
+            r.violate(&format!("own-block-rejected/nft-history/{}", if fees { "fees" } else { "nofees" }), format!("a block the producer assembled was not adopted: {}", ctx), ctx);
+        } else {
+            r.outcome("nft-history:every-produced-block-adopted");
+        }
+        r.transitions += inner.transitions;
+        r
+    });
+    for r in results {
+        rep.merge(r);
+    }
+}
+
 pub fn main(tier: Tier, _replay: Option<String>) -> i32 {
     let mut rep = Report::new("C07", tier.clone(), "model_checking");
     let mut ss = scripts(&tier);
@@ -494,6 +542,7 @@ pub fn main(tier: Tier, _replay: Option<String>) -> i32 {
         all.extend(s);
     }
     producer_after_restart(&mut rep);
+    nft_rounds(&mut rep, &tier);
     rep.states = all.len() as u64;
     rep.required_outcomes = vec!["peer-block-conflicting-with-the-pool".into(), "no-block".into()];
     if !rep.outcomes.keys().any(|k| k.contains("+atr")) {
